@@ -345,3 +345,14 @@ Definition cfg_sources (c : cfg) (usable cached from_urls count : nat) : list so
 Definition agree_sources (c : cfg) (usable cached from_urls count : nat) (urls_seen mainnet_seen : bool) : bool :=
   let s := cfg_sources c usable cached from_urls count in
   Bool.eqb (existsb (source_eqb SrcUrls) s) urls_seen && Bool.eqb (existsb (source_eqb SrcMainnet) s) mainnet_seen.
+
+(* ---------------------------------------------------------------- the run-time meaning of the log-file limits *)
+(* ant-logging TracingLayers::fmt_layer: the file appender keeps `uncompressed` plain files and `total` files in all
+   (the rest gzip-archived): uncompressed = --max-log-files or the default; total = archived + uncompressed when
+   --max-archived-log-files is given (0 included: keep no archive), else max(uncompressed, default total) *)
+Definition log_limits (c : cfg) : N * N :=
+  let u := match c_maxlog c with Some n => n | None => Consts.log_default_uncompressed end in
+  (u, match c_maxarch c with Some a => a + u | None => N.max u Consts.log_default_total end).
+
+Definition agree_log_limits (c : cfg) (uncompressed total : N) : bool :=
+  let '(u, t) := log_limits c in N.eqb u uncompressed && N.eqb t total.
